@@ -10,7 +10,7 @@ RULE = ("Zooming x 11 partition variants x d in {1,2} x (nu,rho) in {(3,0.7),(8,
         "(phase boundaries at 2, 6, 14, 30, 62).  Per round: arms inside their cells, every leaf owned by an active arm, pulled arm "
         "maximises the index under the reference phase counter, refinement iff radius <= nu*rho^depth, children without the arm get "
         "fresh arms at their centres.  distinct_nontrivial = executions with a refinement.")
-ASSUMPTIONS = ["at a phase boundary the refinement test may see the old or the new phase: rounds where the two disagree are counted ambiguous",
+ASSUMPTIONS = ["the confidence radius of the refinement test is the one observable after receive_reward (phase counter and pull count once the round is booked), i.e. the radius the next pull's index uses; only radii within 1e-9 of the threshold are counted ambiguous",
                "tolerance 1e-9; ties: any arg-max"]
 VACUITY = [("refinements", "no refinement observed"), ("refinements_arm_on_shared_face", "no refinement with the arm on a shared face"),
            ("pulls_judged", "no pull judged")]
